@@ -89,6 +89,10 @@ func buildUnits(b bounds) []unit {
 			}
 		}
 	}
+	// wide modules: different listener sets must never share a compilation (wide.go)
+	for _, w := range [][2]int{{66, 0}, {70, 0}, {70, 2}, {130, 0}, {130, 1}} {
+		us = append(us, unit{Fam: "wide", Tree: fmt.Sprintf("wide:%d:%d", w[0], w[1])})
+	}
 	// a function reached through two call sites (needed to see stale per-function listener state),
 	// run with every factory composition
 	for n := 2; n <= b.callAgainBase; n++ {
@@ -116,16 +120,17 @@ func buildUnits(b bounds) []unit {
 // ---------------------------------------------------------------- one case
 
 type caseID struct {
-	Tree    string `json:"tree"`
-	Rot     int    `json:"rot"`
-	Shape   int    `json:"shape,omitempty"`
-	Comp    int    `json:"comp,omitempty"` // factory composition (exec.go compose)
-	Start   bool   `json:"start"`
-	Engine  string `json:"engine"`
-	History string `json:"history"`
-	Listen  bool   `json:"listen"`
-	Mask    uint64 `json:"mask"`
-	All     bool   `json:"all"`
+	Tree    string    `json:"tree"`
+	Rot     int       `json:"rot"`
+	Shape   int       `json:"shape,omitempty"`
+	Comp    int       `json:"comp,omitempty"` // factory composition (exec.go compose)
+	Start   bool      `json:"start"`
+	Engine  string    `json:"engine"`
+	History string    `json:"history"`
+	Listen  bool      `json:"listen"`
+	Mask    uint64    `json:"mask"`
+	All     bool      `json:"all"`
+	Wide    *wideCase `json:"wide,omitempty"` // wide-module family (wide.go)
 }
 
 type violOut struct {
@@ -325,6 +330,9 @@ func setsFor(u unit, n int) []caseID {
 }
 
 func runUnit(u unit, b bounds) (res unitResult) {
+	if u.Fam == "wide" {
+		return runWideUnit(u)
+	}
 	res.Outcomes = map[string]int64{}
 	t, err := ParseTree(u.Tree)
 	if err != nil {
@@ -556,7 +564,7 @@ func main() {
 	outcomes := fw.NewCounter()
 	samples := fw.NewSampler(16)
 	var evals, distinct int64
-	var nTree, nChain, skipped int64
+	var nTree, nChain, nWide, skipped int64
 	var pending []pendingVerdict
 	t0 := time.Now()
 	done := fw.Supervise(fw.SupOpts{N: len(units), Workers: runtime.NumCPU(), CaseTimeout: 300 * time.Second, Mode: run.Tier,
@@ -586,10 +594,13 @@ func main() {
 			}
 			evals += r.Evals
 			distinct += r.Distinct
-			if u.Fam == "tree" {
+			switch u.Fam {
+			case "tree":
 				nTree++
-			} else {
+			case "chain":
 				nChain++
+			default:
+				nWide++
 			}
 			for k, v := range r.Outcomes {
 				outcomes.AddN(k, v)
@@ -621,10 +632,10 @@ func main() {
 		Evaluations: evals, DistinctNontriv: distinct,
 		Rule:    "evaluation = one execution of a generated program on one engine under one compilation history with one listener set (or none); distinct non-trivial = distinct (tree, signature rotation, start-variant, listener set) whose reference event stream is non-empty, counted once across engines and histories",
 		Samples: samples.List(), Exhaustive: true, Outcomes: outcomes.Map(),
-		Bounds: map[string]any{"max_nodes": b.maxNodes, "edge_kinds": "d,i,m,h,t,r", "factory_compositions": fmt.Sprintf("single; Multi(set,set); Multi(every function,set); Multi(set,nil,set); Multi(FunctionListenerFunc adapter,set) - on the call-again family (base trees with <= %d nodes + a second call site of an earlier function; sets: all-functions, full, the twice-called function) and on the chains whose length is a multiple of 4 (all-functions factory); history once", b.callAgainBase), "body_shapes": fmt.Sprintf("%d (exit form x surplus operands) combinations x 4 signature rotations on every tree with <= %d nodes, one combination per tree with %d nodes; history once", numShapeCombos, b.shapeAllUpTo, b.shapeAllUpTo+1), "tail_form_family": fmt.Sprintf("edge kinds d,i,m,h,t,u,v,w,r; trees with <= %d nodes using u, v or w", b.tailFormNodes), "outcomes": "R,T,P,E,S", "signature_rotations_up_to_nodes": b.rotUpTo,
+		Bounds: map[string]any{"max_nodes": b.maxNodes, "edge_kinds": "d,i,m,h,t,r", "wide_modules": "66, 70 (0 and 2 imports), 130 (0 and 1 import) local functions; run calls the locals at 0,1,31,32,62,63,64,65,66,127,128,129 that exist; (S1,S2) = same set (control), differing in exactly one of those indexes (both directions), in two indexes 64 apart, and high-only sets; histories twice and cache; both engines", "factory_compositions": fmt.Sprintf("single; Multi(set,set); Multi(every function,set); Multi(set,nil,set); Multi(FunctionListenerFunc adapter,set) - on the call-again family (base trees with <= %d nodes + a second call site of an earlier function; sets: all-functions, full, the twice-called function) and on the chains whose length is a multiple of 4 (all-functions factory); history once", b.callAgainBase), "body_shapes": fmt.Sprintf("%d (exit form x surplus operands) combinations x 4 signature rotations on every tree with <= %d nodes, one combination per tree with %d nodes; history once", numShapeCombos, b.shapeAllUpTo, b.shapeAllUpTo+1), "tail_form_family": fmt.Sprintf("edge kinds d,i,m,h,t,u,v,w,r; trees with <= %d nodes using u, v or w", b.tailFormNodes), "outcomes": "R,T,P,E,S", "signature_rotations_up_to_nodes": b.rotUpTo,
 			"chain_depths": "1..40", "chain_patterns": b.chainPattern, "chain_leaves": "R,T,P,E", "histories": b.histories, "all_listener_sets_under_every_history_up_to_nodes": b.fullHistoryUpTo, "engines": []string{"interpreter", "compiler"},
 			"listener_sets": "every subset of the nodes + all-functions factory (trees); full/even/odd/root/leaf/all-functions (chains)"},
-		Extra: map[string]any{"units": len(units), "units_done": int64(done) - skipped, "tree_units": nTree, "chain_units": nChain, "units_by_size": byN, "explore_wall_s": time.Since(t0).Seconds(), "unrepeatable_mismatches": unrepeatable},
+		Extra: map[string]any{"units": len(units), "units_done": int64(done) - skipped, "tree_units": nTree, "chain_units": nChain, "wide_module_units": nWide, "units_by_size": byN, "explore_wall_s": time.Since(t0).Seconds(), "unrepeatable_mismatches": unrepeatable},
 	}, []string{
 		"the stack iterator is expected to list the frames of the current api.Function.Call only (a host function that re-enters the guest starts a new call boundary), on both engines",
 		"values are compared after masking to the value type's width (upper bits of 32-bit slots are not part of the value)",
@@ -729,6 +740,28 @@ func confirmIntermittent(run *fw.Run, units []unit, pending []pendingVerdict) []
 // ---------------------------------------------------------------- replay / show
 
 func runOne(id caseID, verbose bool) []viol {
+	if id.Wide != nil {
+		var all []viol
+		engines := []string{id.Engine}
+		if id.Engine == "both" || id.Engine == "" {
+			engines = []string{"interpreter", "compiler"}
+		}
+		for _, eng := range engines {
+			ev1, ev2, faults, result := runWide(eng, id.History, *id.Wide)
+			vs := judgeWide(eng, id.History, *id.Wide)
+			if verbose {
+				fmt.Printf("wide case %+v engine %s history %s\n  result %s\n  second factory (S2) got: %s\n  first factory (S1) got: %s\n  faults %v\n", *id.Wide, eng, id.History, result, streamString(ev2), streamString(ev1), faults)
+				for _, w := range vs {
+					fmt.Printf("  FAIL %s\n", w.Sig)
+				}
+				if len(vs) == 0 {
+					fmt.Println("  holds")
+				}
+			}
+			all = append(all, vs...)
+		}
+		return all
+	}
 	t, err := ParseTree(id.Tree)
 	if err != nil {
 		fw.Fatalf("replay: %v", err)
